@@ -16,11 +16,15 @@ def bound_of(atom):
 def run(chk, repo, tier):
     from .common import no_hidden_state
     no_hidden_state(chk, repo, 'C12')
+    chk.clause('C12-o', 'fit / compose / remove leave their arguments (opd, mask, rho, theta, coefficients) untouched', 5)
+    from .common import operands_untouched
+    operands_untouched(chk, repo, 'C12-o', ['zernike.zernike', 'zernike.zernike_compose', 'zernike.zernike_basis', 'zernike.zernike_fit', 'zernike.zernike_remove', 'zernike.zernike_coordinates', 'zernike.R'], allow=[])
     chk.clause('C12-a', 'every internal call in zernike.py binds normalize/rho/theta/modes/mask to the like-named parameter', 8)
     chk.clause('C12-b', 'the removed component is synthesised from the fitted mode set (depends on `modes` beyond the coefficients)', 1)
     chk.clause('C12-c', 'analysis and synthesis in zernike_remove use the same normalisation and coordinates', 2)
     chk.clause('C12-d', 'compose maps coefficient k to Noll index k+1; basis row i is mode modes[i]; fit applies the '
                         'pseudo-inverse of the vectorised basis of the same modes', 3)
+    chk.clause('C12-e', 'nothing is lost between synthesis and analysis: full-rank pseudo-inverse cut-off, float basis array', 2)
     chk.not_decided += ['exact recovery of coefficients and idempotence (numerical)']
 
     # ---------------------------------------------------------------- C12-a
@@ -139,6 +143,54 @@ def run(chk, repo, tier):
         ok = ok and good
         det = f'basis call: ' + ', '.join(f'{k}={fmt(v)}' for k, v in b.items())
     chk.ob('C12-d', 'D-flow', ffit.key, 'pseudo-inverse of the vectorised basis of the same modes', ok, det, ffit.loc())
+    # exact recovery for every linearly independent mode set: no singular value is discarded beyond rounding level
+    cut_ok, det_c, n_inv = True, '', 0
+    for p in rets:
+        for a in nf.value_atoms(p.ret):
+            if not is_app(a, ('linalg.pinv', 'linalg.lstsq')):
+                continue
+            n_inv += 1
+            cut = None
+            pos = [x for x in a[2] if not (isinstance(x, Tup) and x.items and isinstance(x.items[0], Tup))]
+            kws = {pr.items[0].value: pr.items[1] for x in a[2] if isinstance(x, Tup) for pr in x.items
+                   if isinstance(pr, Tup) and len(pr) == 2 and isinstance(pr.items[0], Const)}
+            for k in ('rcond', 'rtol', 'cond'):
+                if k in kws:
+                    cut = kws[k]
+            if cut is None and a[1] == 'linalg.pinv' and len(pos) > 1:
+                cut = pos[1]
+            if cut is None and a[1] == 'linalg.lstsq' and len(pos) > 2:
+                cut = pos[2]
+            if cut is None or cut == NONE:
+                continue
+            cv = cut.const_value() if isinstance(cut, Poly) else None
+            if cv is None or cv > 1e-12 or cv < 0 and a[1] == 'linalg.pinv':
+                cut_ok, det_c = False, f'{a[1]} cut-off {fmt(cut)}: singular values below it are dropped, so an independent but ' \
+                                       'ill-conditioned mode set is not recovered'
+    chk.ob('C12-e', 'N-cutoff', ffit.key, 'the least-squares solve keeps every singular value above rounding level', cut_ok and n_inv > 0,
+           det_c or 'default cut-off', ffit.loc())
+    # the basis holds real-valued polynomials: the array that receives them is a float array whatever the mask's type
+    _, paths, _ = analyse(repo, fbas)
+    flt_ok, det_f, n_alloc = True, '', 0
+    for p in returns(paths):
+        for e in p.writes():
+            if e.data.get('how') == 'setitem' and e.in_loop:
+                from ..rules import alias_root
+                from .c09 import view_chain
+                root, _ = view_chain(e.target, p.state.loops)
+                if root is None or not is_app(root, ('zeros', 'empty', 'ones', 'zeros_like', 'empty_like', 'ones_like', 'full')):
+                    continue
+                n_alloc += 1
+                kws = {pr.items[0].value: pr.items[1] for x in root[2] if isinstance(x, Tup) for pr in x.items
+                       if isinstance(pr, Tup) and len(pr) == 2 and isinstance(pr.items[0], Const)}
+                dt = kws.get('dtype')
+                like = root[1].endswith('_like')
+                floatish = dt is None and not like or (isinstance(dt, Const) and str(dt.value) in
+                                                       ("('builtin', 'float')", 'float64', 'float', 'complex128', "('builtin', 'complex')"))
+                if not floatish:
+                    flt_ok, det_f = False, f'basis allocated as {nf.fmt_atom(root)[:120]}: the modes are cast to that type on assignment'
+    chk.ob('C12-e', 'T-dtype', fbas.key, 'the basis array is a float array whatever the type of the mask',
+           (flt_ok and n_alloc > 0) if (n_alloc > 0 or not flt_ok) else None, det_f or f'{n_alloc} allocation(s)', fbas.loc())
 
 
 def _ord(s, ords):
